@@ -380,10 +380,37 @@ def gen_mig(rng):
                     constraints.append((u, v))
             if deps:
                 evo_deps[u] = deps
+    # the last evolution of some apps changes nothing (no mutation, or only
+    # the hand-over).  Where the hidden order has a pending migration between
+    # the two evolutions of such an app, requirements pin it there, so the
+    # silent evolution forms a batch of its own without any SQL
+    empty_last = {a: nevo[a] == 2 and applied_e[a] == 0 and
+                  rng.random() < 0.5 for a in eapps}
+    split_batches = 0
+    for a in eapps:
+        if not empty_last[a]:
+            continue
+        u1, u2 = ('E', a, 'e1'), ('E', a, 'e2')
+        between = [v for v in merged
+                   if v[0] == 'M' and pos[u1] < pos[v] < pos[u2]]
+        if between:
+            v = between[0]
+            d1 = evo_deps.setdefault(u1, {})
+            d2 = evo_deps.setdefault(u2, {})
+            if (v[1], v[2]) not in d1.get('BEFORE_MIGRATIONS', []) + \
+                    d1.get('AFTER_MIGRATIONS', []):
+                d1.setdefault('BEFORE_MIGRATIONS', []).append((v[1], v[2]))
+                constraints.append((u1, v))
+            if (v[1], v[2]) not in d2.get('BEFORE_MIGRATIONS', []) + \
+                    d2.get('AFTER_MIGRATIONS', []):
+                d2.setdefault('AFTER_MIGRATIONS', []).append((v[1], v[2]))
+                constraints.append((v, u2))
+            split_batches += 1
     return {'eapps': eapps, 'mapps': mapps, 'nevo': nevo, 'nmig': nmig,
             'applied_e': applied_e, 'applied_m': applied_m, 'names': names,
             'pending': merged, 'constraints': constraints, 'cross': cross,
-            'evo_deps': evo_deps, 'moved': moved}
+            'evo_deps': evo_deps, 'moved': moved,
+            'empty_last': empty_last, 'silent_split_batches': split_batches}
 
 
 def gen_mig_cross(rng):
@@ -435,16 +462,19 @@ def write_and_install(proj, g):
     for a in g['eapps']:
         n = g['nevo'][a]
         versions = []
+        empty_last = (g.get('empty_last') or {}).get(a)
         for v in range(n + 1):
             fields = [['v', {'kind': 'Integer'}]] + [
                 ['x%d' % (k + 1), {'kind': 'Integer', 'null': True}]
-                for k in range(v)]
+                for k in range(v) if not (empty_last and k == n - 1)]
             versions.append({'M': {'fields': fields, 'meta': {}}})
         evolutions = []
         for k in range(n):
             u = ('E', a, 'e%d' % (k + 1))
             texts = ["AddField('M', 'x%d', models.IntegerField, "
                      "null=True)" % (k + 1)]
+            if empty_last and k == n - 1:
+                texts = []
             if g['moved'][a] and k == n - 1:
                 texts.append('MoveToDjangoMigrations()')
             evolutions.append((u[2], texts, g['evo_deps'].get(u) or {}))
@@ -456,7 +486,7 @@ def write_and_install(proj, g):
             open(os.path.join(pkg, '__init__.py'), 'w').close()
             fields = ''.join(
                 "('x%d', models.IntegerField(null=True)), " % (k + 1)
-                for k in range(n))
+                for k in range(n) if not (empty_last and k == n - 1))
             with open(os.path.join(pkg, '0001_initial.py'), 'w') as f:
                 f.write(
                     'from django.db import migrations, models\n\n\n'
@@ -526,6 +556,8 @@ def run_mig_case(desc):
                     'stats': stats, 'case': case,
                     'harness_error': str(ev)[:500]}
         pending_temp = [None]
+        copied = [None]
+        twice = []
         # order of execution: a migration is placed by its
         # applying_migration signal, an evolution e<k> by the first
         # statement that introduces its column x<k> (when the evolutions of
@@ -550,9 +582,17 @@ def run_mig_case(desc):
                     u = ('E', m.group(1), 'e' + m.group(2))
                     if u not in order:
                         order.append(u)
+                    else:
+                        twice.append(u)
                 elif m:
                     pending_temp[0] = [int(x) for x in re.findall(
                         r'"x(\d)"', e['sql'])]
+                    copied[0] = None
+                m3 = re.match(r'\s*INSERT INTO "TEMP_TABLE" \(([^)]*)\)',
+                              e['sql'])
+                if m3:
+                    copied[0] = [int(x) for x in re.findall(
+                        r'"x(\d)"', m3.group(1))]
                 m2 = re.match(r'\s*ALTER TABLE "TEMP_TABLE" RENAME TO '
                               r'"(app[12])_m"', e['sql'])
                 if m2 and pending_temp[0] is not None:
@@ -560,17 +600,32 @@ def run_mig_case(desc):
                         u = ('E', m2.group(1), 'e%d' % k)
                         if u not in order and u in set(g['pending']):
                             order.append(u)
+                        elif copied[0] is not None and k not in copied[0]:
+                            # the rebuild introduces (again) a column that
+                            # an earlier statement of this run introduced
+                            twice.append(u)
                     pending_temp[0] = None
         if len(listed) != len(set(listed)):
             stats['signals_listing_an_evolution_twice'] = 1
         ctx = {'driver': drv, 'mig': True}
         o = ev['outcome']
         stats['mig_orders_checked'] = 1
+        if twice:
+            items.append(dict(ctx, type='EVOLUTION_EXECUTED_TWICE',
+                              units=sorted(set('%s:%s:%s' % u
+                                               for u in twice))))
         if not o['ok']:
             items.append(dict(ctx, type='RUN_FAILED', exc=o['exc'],
                               site=o.get('site'), msg=o.get('msg', '')[:200]))
         else:
-            want = sorted(g['pending'])
+            # (an evolution without mutations leaves no statement by which
+            # it could be placed)
+            silent = set(('E', a, 'e%d' % g['nevo'][a])
+                         for a, on in (g.get('empty_last') or {}).items()
+                         if on)
+            stats['silent_evolutions'] = len(silent)
+            stats['silent_split_batches'] = g.get('silent_split_batches', 0)
+            want = sorted(u for u in g['pending'] if u not in silent)
             if sorted(order) != want:
                 items.append(dict(
                     ctx, type='PENDING_NOT_APPLIED_ONCE',
